@@ -96,13 +96,17 @@ def plan(ctx):
                 nt = rng.randint(1, 16)
                 total = rng.choice([200, 500, 1000, 2000, 4000, 10000]) if shape != "probe" else rng.choice([30, 60, 100])
                 nc = max(1, total // nt)
+            # callbacks that block for a moment / a short interpreter switch interval: producers enqueue while the
+            # reactor is in the middle of a drain
+            yld = 0 if shape == "probe" else rng.choice([0, 2, 3, 7])
             cfgs.append(dict(reactor=reactor, clock="real", timer=3600 if rng.random() < 0.3 else 0,
-                             shape=shape, producers=gen_scripts(rng, shape, nt, nc)))
+                             shape=shape, producers=gen_scripts(rng, shape, nt, nc), cb_yield=yld,
+                             switch_us=rng.choice([0, 0, 200, 1000])))
         # a platform whose clock has 1 ms granularity (time.time() may be that coarse)
         for k in range(ctx.pick(1, 6)):
             shape = ["burst", "mixed", "window"][k % 3]
             nt = rng.randint(2, 8)
-            cfgs.append(dict(reactor=reactor, clock="ms", timer=0, shape=shape,
+            cfgs.append(dict(reactor=reactor, clock="ms", timer=0, shape=shape, cb_yield=rng.choice([0, 3]), switch_us=0,
                              producers=gen_scripts(rng, shape, nt, ctx.pick(60, 400))))
     for c in cfgs:
         c["lat_unit_ms"] = LAT_UNIT_MS
@@ -130,7 +134,7 @@ def run_one(cfg, repo_src):
         raise MachineryError("driver imported twisted from %s" % res["twisted"])
     n = [len(s) for s in cfg["producers"]] + [1]
     return {"cfg": {"n": n, "reactor": cfg["reactor"], "clock": cfg["clock"], "timer": cfg["timer"], "shape": cfg["shape"],
-                    "reactor_class": res["reactor_class"]},
+                    "cb_yield": cfg.get("cb_yield", 0), "switch_us": cfg.get("switch_us", 0), "reactor_class": res["reactor_class"]},
             "ev": res["ev"], "stuck": res["stuck"], "stderr": p.stderr[-400:]}
 
 
@@ -225,15 +229,22 @@ def model_checks(ctx):
 
     must_ok(ctx.mc("ThreadCallsMC", ctx.pick("ThreadCallsMC.cfg", "ThreadCallsMC.thorough.cfg")), "ThreadCalls (Abs) violates its own invariants")
     ctx.require_actions("ThreadCallsMC", ["IssueStep", "RunStep"])
-    must_fail(ctx.mc("ThreadCallsMC", "ThreadCallsMCReach.cfg", must_pass=False, label="vacuity: quiescent non-trivial history reachable"),
-              "invariant", "Abs reachability")
-    must_fail(ctx.mc("ThreadCallsMC", "ThreadCallsMCReach2.cfg", must_pass=False, label="vacuity: late non-idle call allowed"),
-              "invariant", "Abs late-call reachability")
+    if ctx.quick:
+        must_fail(ctx.mc("ThreadCallsMC", "ThreadCallsMCReach3.cfg", must_pass=False,
+                         label="vacuity: quiescent history with an idle-issued call and a late non-idle call reachable"),
+                  "invariant", "Abs reachability")
+    else:
+        must_fail(ctx.mc("ThreadCallsMC", "ThreadCallsMCReach.cfg", must_pass=False, label="vacuity: quiescent non-trivial history reachable"),
+                  "invariant", "Abs reachability")
+        must_fail(ctx.mc("ThreadCallsMC", "ThreadCallsMCReach2.cfg", must_pass=False, label="vacuity: late non-idle call allowed"),
+                  "invariant", "Abs late-call reachability")
     must_ok(ctx.mc("ThreadCallsImplMC", ctx.pick("ThreadCallsImplMC.cfg", "ThreadCallsImplMC.thorough.cfg"),
                    label="Impl: safety + refinement of Abs + liveness"), "ThreadCallsImpl fails")
     ctx.require_actions("ThreadCallsImplMC", ["EnqueueStep", "WakeUpStep", "Check", "RunOne", "DrainEnd", "Block", "Wake", "Unrelated"])
     must_fail(ctx.mc("ThreadCallsImplMC", "ThreadCallsImplNoWake.cfg", must_pass=False,
                      label="vacuity: without the producers' wakeUp() liveness must fail"), "property", "Impl without wakeUp")
+    if ctx.quick:
+        return {}
     must_fail(ctx.mc("ThreadCallsImplMC", "ThreadCallsImplReach.cfg", must_pass=False,
                      label="vacuity: enqueue inside the Check/Block window reachable"), "invariant", "Impl window reachability")
     # the asyncio reactor's own algorithm (Impl layer, informational): does it keep per-producer order?
@@ -283,7 +294,8 @@ def run(ctx):
     ctx.exhaustive = False
     ctx.log("recorded %d real reactor runs, %d calls, %d idle-issued" % (len(traces), ctx.extra["calls_executed"], ctx.extra["idle_issued_calls"]))
     slim = [{"cfg": t["cfg"], "ev": t["ev"]} for t in traces]
-    rej = ctx.validate("ThreadCallsTrace", slim, shard_size=max(1, (len(slim) + 3) // 4))
+    nsh = ctx.pick(2, 8)
+    rej = ctx.validate("ThreadCallsTrace", slim, shard_size=max(1, (len(slim) + nsh - 1) // nsh))
     report(ctx, traces, rej, cfgs)
     bad = {x.idx for x in rej}
     # a counterexample of the asyncio Impl model counts only if the real reactor reproduces it (it is then reported above
